@@ -32,6 +32,7 @@ def run(chk: Check) -> None:
     run_only_once_slot(chk, ix)
     run_plugin_identity(chk, ix)
     run_shared_memo_keys(chk, ix)
+    run_cache_slot_read_under_write_condition(chk, ix)
     R = Resolver(ix)
     r1 = chk.rule("R10.1", "every iteration over a set/frozenset is either consumed order-insensitively (recognised structurally) or tabled with a reason; an untabled order-sensitive use is a violation", floor=80)
     n_sites = 0
@@ -523,3 +524,34 @@ def run_shared_memo_keys(chk: Check, ix) -> None:
     from .c08 import memo_call_sites_agree
     r6 = chk.rule("R10.6", "the subtype caches in TypeState outlive a module and are shared by all modules of a build; their key (SubtypeVisitor._subtype_kind) contains the per-module inputs of the answer (state.strict_optional and the context flags, decided by R08.1). Every lookup and every record in SubtypeVisitor.visit_instance uses that key and nothing else: a lookup under another module's key hands one module an answer computed for another, and which answers exist depends on the order in which the files were given", floor=1)
     memo_call_sites_agree(r6, ix)
+
+
+def run_cache_slot_read_under_write_condition(chk: Check, ix) -> None:
+    """R10.7: a memo slot that is only filled under a per-module condition is only consulted under that condition."""
+    from ..cfg import branch_conditions
+    r = chk.rule("R10.7", "typeops.type_object_type memoises the constructor type of a class on the TypeInfo (info.type_object_type), which all modules of a build share. It writes the slot only when `state.strict_optional` holds (a comment explains that the result differs otherwise: union simplification); the `return info.type_object_type` that answers from the slot is under the same condition. Otherwise a `# mypy: no-strict-optional` module gets the strict result or its own depending on whether a strict module asked about the class earlier, i.e. on the order of the files", floor=1)
+    f = ix.func("mypy.typeops.type_object_type")
+    par = f.module.parents()
+    writes = [a for a in ast.walk(f.node) if isinstance(a, ast.Assign) and norm(a.targets[0]) == "info.type_object_type" and not (isinstance(a.value, ast.Constant) and a.value.value is None)]
+    reads = [x for x in ast.walk(f.node) if isinstance(x, ast.Return) and x.value is not None and norm(x.value) == "info.type_object_type"]
+    if not writes or not reads:
+        raise AnalysisError(f"type_object_type: slot writes {len(writes)}, answering returns {len(reads)}")
+
+    def per_module_atoms(node):
+        pos, neg = branch_conditions(par, f.node, node)
+        out = set()
+        for t in pos:
+            for c in ast.walk(t):
+                if isinstance(c, ast.Attribute) and norm(c).startswith("state."):
+                    out.add(norm(c))
+        return out
+    need = set()
+    for w in writes:
+        need |= per_module_atoms(w)
+    for rd in reads:
+        key = "type_object_type: the cached constructor type is returned only under the condition it was stored under"
+        have = per_module_atoms(rd)
+        if need <= have:
+            r.ok(key, f.loc(rd), f"both under {sorted(need)}")
+        else:
+            r.violation(key, f.loc(rd), f"the slot is written only when {sorted(need)} holds but read without that test: a module checked with the other setting receives the answer computed for a module with this one when that module came first, and computes its own otherwise (`mypy a.py b.py` vs `mypy b.py a.py`)")
